@@ -108,6 +108,7 @@ R01.7 the destination import path comes from modfile.ModulePath of the nearest g
 	}
 	goR011(c, r)
 	goR015(c, r, "R01.5")
+	ruleAbsolutiseWhenRelative(c, r, "R01.5")
 	goR016(c, r)
 	goR017(c, r)
 	goR017Search(c, r)
@@ -1422,4 +1423,59 @@ func nilTestOf(info *types.Info, e ast.Expr) (isTest, holdsForNonNil bool) {
 		return true, false
 	}
 	return false, false
+}
+
+// ruleAbsolutiseWhenRelative (third mutation sample): the output directory is joined onto the working directory
+// exactly when it is relative. `if p.IsAbsolute() { p = cwd.JoinPath(p) }` prefixes absolute dirs with the
+// working directory and leaves relative ones relative, so findPkgPath walks the wrong tree and the in-package
+// decision (R01.5) compares a relative with an absolute path. Every if-statement of the generator package whose
+// condition is an IsAbsolute test of a path and whose body joins that path onto something must be the negated form.
+func ruleAbsolutiseWhenRelative(c *Ctx, r *Repo, rule string) {
+	ip := r.Pkg("internal")
+	info := ip.TypesInfo
+	n := 0
+	for _, fd := range pkgFuncDecls(ip) {
+		ast.Inspect(fd.Body, func(x ast.Node) bool {
+			is, ok := x.(*ast.IfStmt)
+			if !ok {
+				return true
+			}
+			cond := ast.Unparen(is.Cond)
+			neg := false
+			if u, ok := cond.(*ast.UnaryExpr); ok && u.Op == token.NOT {
+				neg = true
+				cond = ast.Unparen(u.X)
+			}
+			call, ok := cond.(*ast.CallExpr)
+			if !ok || !strings.HasSuffix(calleeName(info, call), "pathlib.Path).IsAbsolute") {
+				return true
+			}
+			se, ok := call.Fun.(*ast.SelectorExpr)
+			if !ok {
+				return true
+			}
+			subj, ok := ast.Unparen(se.X).(*ast.Ident)
+			if !ok {
+				return true
+			}
+			joins := false
+			ast.Inspect(is.Body, func(m ast.Node) bool {
+				if jc, ok := m.(*ast.CallExpr); ok && strings.HasSuffix(calleeName(info, jc), "pathlib.Path).JoinPath") {
+					for _, a := range jc.Args {
+						if id, ok := ast.Unparen(a).(*ast.Ident); ok && info.Uses[id] == info.Uses[subj] {
+							joins = true
+						}
+					}
+				}
+				return true
+			})
+			if !joins {
+				return true
+			}
+			n++
+			c.Check(neg, rule, "absolutise-when-relative|"+fd.Name.Name+"|"+subj.Name, r.Pos(is.Pos()), subj.Name+" is joined onto the working directory exactly when it is relative", fd.Name.Name+" joins "+subj.Name+" onto another directory on the branch where it IS absolute and leaves a relative path relative: the destination package path and the in-package decision are computed from the wrong directory")
+			return true
+		})
+	}
+	c.Check(n >= 1, rule, "absolutise-when-relative|sites", "internal/template_generator.go", "the relative-to-absolute step of the output directory found", "no 'if !dir.IsAbsolute() { dir = cwd.JoinPath(dir) }' step found in the generator package (anchor: NewTemplateGenerator)")
 }
